@@ -154,7 +154,7 @@ pub fn str_ferr(e: &FrameError) -> String {
         FrameError::InvalidFrame { .. } => "ER INVALID".to_string(),
         FrameError::FrameDataMismatch { expected, actual, .. } => format!("ER MISMATCH {} {}", expected, actual),
         FrameError::BadChecksum { expected, actual, .. } => format!("ER BADCK {} {}", expected, actual),
-        FrameError::DataTooLong { actual, .. } => format!("ER TOOLONG {}", actual),
+        FrameError::DataTooLong { .. } => "ER TOOLONG".to_string(),
         FrameError::Io { .. } => "ER IO".to_string(),
         _ => "ER ???".to_string(),
     }
